@@ -31,7 +31,7 @@ ROLES = [
     ("parser::next_char_boundary",
      lambda s: s["output"] == "usize" and s["inputs"] == ["&str", "usize"] and s["path"].startswith("parser::")),
     ("expression::deep::find_op",
-     lambda s: re.search(r"^std::option::Option<\(usize, operators::Operator<", s["output"]) and _inputs(s, r"^&('\w+ )?str$", r"^&\[operators::Operator<")),
+     lambda s: re.search(r"^std::(option::Option|result::Result)<\(usize, operators::Operator<", s["output"]) and _inputs(s, r"^&('\w+ )?str$", r"^&\[operators::Operator<")),
     ("expression::deep::find_bin_op",
      lambda s: re.search(r"^std::result::Result<expression::deep::BinOpsWithReprs<", s["output"]) and _inputs(s, r"^&('\w+ )?str$", r"^&\[operators::Operator<")),
     ("expression::deep::find_unary_op",
